@@ -48,6 +48,11 @@ pub fn run(spec: &ScenarioSpec, ctx: &mut Ctx) -> Result<(), Violation> {
         if k == 3 {
             ss.eintr_calls = gen::gen_eintr(&mut rng, 60);
         }
+        if k >= 2 {
+            gen::gen_embedding(&mut rng, &mut ss);
+            ctx.probe_if(ss.prefix > 0, "replay does not start at stream offset 0");
+            ctx.probe_if(ss.suffix > 0, "unrelated bytes follow the replay");
+        }
         let skip = finished && rng.chance(1, 2);
         let hash = k < 3 || rng.chance(4, 5);
         let opts = OptsSpec { skip_frames: skip, compute_hash: hash };
